@@ -130,6 +130,9 @@ func c12check(p *AllProject, r *rbT, file string, src []byte, oi int, end int) {
 func VerifRun_C12() {
 	lo, hi := verifParam("TMIN"), verifParam("TMAX")
 	ti := verifConcretize(verifRange("template", lo, hi))
+	if ti == verifParamOr("TSKIP", -1) {
+		return // (a template that only another property's range includes: see known_findings.txt, C05-unspaced-field-value)
+	}
 	t := vpTemplates[ti]
 	if verifParam("LAYOUTS") > 1 && verifConcretize(verifRange("layout", 0, 1)) == 1 {
 		t = vpOneLine(t)
